@@ -146,7 +146,11 @@ def match_known(known, viol):
     """a violation is {rule: str, ...fields}; a finding matches if rule is equal and every key of finding['match']
     equals (or, for strings ending with '*', prefixes) the violation's field"""
     for k in known:
-        if k.get("rule") != viol.get("rule"):
+        kr = k.get("rule")
+        if isinstance(kr, dict) and "regex" in kr:
+            if not re.search(kr["regex"], str(viol.get("rule", ""))):
+                continue
+        elif kr != viol.get("rule"):
             continue
         ok = True
         for key, val in k.get("match", {}).items():
